@@ -30,11 +30,13 @@ fn steps_json(before: [u64; 8]) -> String {
 
 pub fn err_json(e: &ParseError) -> String {
     format!(
-        "{{\"err\":{},\"kind\":{},\"offset\":{},\"disp\":{}}}",
+        "{{\"err\":{},\"kind\":{},\"offset\":{},\"disp\":{},\"ie\":{},\"te\":{}}}",
         jstr(&format!("{:?}", e.error)),
         jstr(&kind_of(&e.error)),
         u32::from(e.offset),
-        jstr(&e.error.to_string())
+        jstr(&e.error.to_string()),
+        e.error.is_indentation_error(),
+        e.error.is_tab_error()
     )
 }
 
